@@ -1,8 +1,9 @@
-import KafVerif.Model.KafkaDriver
+import KafVerif.Model.KafkaPitrDriver
 open KafVerif KafVerif.Kafka
 
-/-- `lean --run Driver/C08.lean`: `restore` ops of the point-in-time restore model (plus the shared byte-format ops) -/
+/-- `lean --run Driver/C08.lean`: `restore` ops of the point-in-time restore model (restore time in milliseconds or, with
+the suffix `ns`, in nanoseconds), plus the shared byte-format ops -/
 def main (args : List String) : IO Unit := do
   let tab := crcTable
   let d : DriverCfg := ⟨args.headD "root", crc32cWith tab, goMakeLim AllocMax⟩
-  runLines () fun _ ws => ((), kafkaStep d ws)
+  runLines () fun _ ws => ((), pitrStep d ws)
